@@ -83,6 +83,7 @@ def run(ctx) -> None:
     r20_6(ctx)
     r20_7(ctx)
     r20_8(ctx)
+    r20_9(ctx)
     ctx.floor("streaming_units", 20)
     ctx.floor("pull_loops", 15)
     ctx.floor("windows_checked", 3)
@@ -473,6 +474,54 @@ class _Relabel:
 
     def fail(self, rule, *a, **k):
         return self._ctx.fail(self._rid, *a, **k)
+
+
+def r20_9(ctx) -> None:
+    """A container a streaming tool creates and hands to a helper (or a closure factory) of the library is as good as its own:
+    if the helper - or a function defined inside it - adds to it, it grows with the stream just the same (R20.1 looks at
+    the tool's own loops only)."""
+    ctx.rule("R20.9", "a container created by a streaming tool is not filled by a library helper / closure it is handed to "
+                      "(a memo that is written for every item and never provably emptied retains the stream)")
+    fresh = {"dict", "list", "set", "deque", "OrderedDict", "defaultdict"}
+    sites = 0
+    for short in _present(ctx, STREAMING):
+        if short in ACCUMULATORS or ctx.pkg.canonical(ctx.unit(short)) in ACCUMULATORS or ctx.pkg.canonical(ctx.unit(short)) in WINDOW_TOOLS:
+            continue
+        u = ctx.inlined(ctx.unit(short))
+        made = set()
+        for st in own_nodes(u.node):
+            tgt = st.targets[0] if isinstance(st, ast.Assign) and len(st.targets) == 1 else st.target if isinstance(st, ast.AnnAssign) else None
+            val = getattr(st, "value", None)
+            if isinstance(tgt, ast.Name) and (isinstance(val, (ast.Dict, ast.List, ast.Set)) and not getattr(val, "elts", getattr(val, "keys", []))
+                                              or isinstance(val, ast.Call) and not val.args and norm(val.func).split(".")[-1] in fresh):
+                made.add(tgt.id)
+        if not made:
+            continue
+        for c in own_nodes(u.node):
+            if not isinstance(c, ast.Call):
+                continue
+            r = ctx.pkg.resolve_expr_global(u.module, c.func)
+            t = ctx.pkg.lib_unit(r.qual) if r.kind == "lib" else None
+            if t is None:
+                continue
+            names = t.param_names()
+            for i, a in enumerate(c.args):
+                if not (isinstance(a, ast.Name) and a.id in made and i < len(names)):
+                    continue
+                pn = names[i]
+                grown = None
+                for x in ast.walk(t.node):  # (nested definitions included: a closure over the parameter)
+                    if isinstance(x, ast.Subscript) and isinstance(x.ctx, ast.Store) and isinstance(x.value, ast.Name) and x.value.id == pn:
+                        grown = x
+                    if isinstance(x, ast.Call) and isinstance(x.func, ast.Attribute) and isinstance(x.func.value, ast.Name) \
+                            and x.func.value.id == pn and x.func.attr in GROW_METHODS:
+                        grown = x
+                if grown is not None:
+                    sites += 1
+                    ctx.fail("R20.9", u, c, f"`{a.id}` is created here and handed to `{norm(c.func)}`, which adds to it (`{norm(grown)}`): "
+                             "what is remembered per item is kept for as long as the tool runs", line=c.lineno)
+    if not sites:
+        ctx.ok("R20.9", "streaming tools", "no container of a streaming tool is filled by a helper it is handed to")
 
 
 def r20_8(ctx) -> None:
